@@ -109,11 +109,11 @@ theorem copyUnit_att (m : Mode) (hp : m.pickle = true) : ∀ (f : Nat) (h : Heap
     intro h parent u hi
     simp only [copyUnit]
     split
-    · rename_i isMod name p0 t0 secs mems _
+    · rename_i isMod name attrs p0 t0 secs mems _
       have h1 : AttInv (h.alloc m.tag (.tab (parent.bind (tabOf h)) (copyEnts m (entsOf h t0)))).1 := att_alloc hi (by simp [Attached])
       generalize h.alloc m.tag (.tab (parent.bind (tabOf h)) (copyEnts m (entsOf h t0))) = r1 at h1
-      have h2 : AttInv (r1.1.alloc m.tag (.unit isMod name parent r1.2 [] [])).1 := att_alloc h1 (by simp [Attached])
-      generalize r1.1.alloc m.tag (.unit isMod name parent r1.2 [] []) = r2 at h2
+      have h2 : AttInv (r1.1.alloc m.tag (.unit isMod name attrs parent r1.2 [] [])).1 := att_alloc h1 (by simp [Attached])
+      generalize r1.1.alloc m.tag (.unit isMod name attrs parent r1.2 [] []) = r2 at h2
       have h3 := thread_pres (fun h k => copyUnit m f h (some r2.2) k) AttInv (fun h a hp' => ih h (some r2.2) a hp') mems r2.1 h2
       generalize thread (fun h k => copyUnit m f h (some r2.2) k) r2.1 mems = r3 at h3
       have h4 := thread_pres (fun h k => copyNode m (f + 1) h (r2.2 :: chainOf (f + 1) r2.1 parent) k) AttInv
